@@ -15,7 +15,8 @@ def handlers : List (List Sexp → Option Sexp) :=
     Driver.regexHandle,
     Driver.prHandle,
     Driver.settingsHandle,
-    Driver.wordPathsHandle ]
+    Driver.wordPathsHandle,
+    Driver.infixHandle ]
 
 def dispatch (line : String) : String :=
   match Sexp.parseAll line with
